@@ -179,6 +179,11 @@ CORPUS = [
     ("netdiff", [[-1, 0, 0], [-1, 0, 0, 1, 1]], [[2, 2, 2], [2, 2, 2, 2, 2]]),
     ("netdiff", [[-1, 0, 1, 1], [-1, 0, 0]], [[1, 1, 1, 1], [1, 1, 1]]),
     ("netdiff", [[-1], [-1, 0, 1, 2]], [[3], [3, 3, 3, 3]]),
+    # N15: networks of UNBRANCHED cells with different compartment counts (forward Euler used to reshape to (nbranches, -1))
+    ("netdiff", [[-1], [-1]], [[1], [3]]),
+    ("netdiff", [[-1], [-1]], [[2], [4]]),
+    ("netdiff", [[-1], [-1], [-1]], [[1], [2], [3]]),
+    ("netdiff", [[-1], [-1], [-1]], [[3], [1], [4]]),
 ]
 
 
@@ -250,7 +255,7 @@ def run(args):
                      "rational arithmetic against the physics Spec and against the code-shaped model")
     R.assumptions = ["floating-point rounding of the elimination is measured (backward error), not proved",
                      "tridiax.stone and jax.experimental.sparse.linalg.spsolve are exercised, not modelled",
-                     "the level-wise padded array schedule of the jaxley backends is covered by the voltage comparison, not by a theorem"]
+                     "the custom solver is proved correct for every well-formed schedule (custom_solver_correct / _unique / _correct_cable); that the CAPTURED schedule is well formed and its pivots do not vanish is evaluated per case (wf=, piv=)"]
     R.extra["driver_lines"] = drv.lines
     return R
 
